@@ -99,6 +99,51 @@ M('c11-early-return-unguarded-count', 'C11', 'R1', MT,
   "        if not mr_pnames ^ mt_pnames:\n            return (main_matches, sub_matches, 1, 0, self.quality)\n"
   "        matching = mr_pnames & mt_pnames\n")
 
+# main type / subtype, decided on the finite domain {'*', 'a', 'b'} (seeded s5-c11-3): a wildcard on EITHER side matches -
+# the candidates of best_match() are the registered handler keys, so a key 'text/*' has to answer for 'text/csv'.  The
+# "simplified" membership form honours the wildcard of the range only.
+_LADDER = """        if self.main_type == '*' or media_type.main_type == '*':
+            main_matches = 0
+        elif self.main_type != media_type.main_type:
+            return self._NOT_MATCHING
+        else:
+            main_matches = 1
+
+        if self.subtype == '*' or media_type.subtype == '*':
+            sub_matches = 0
+        elif self.subtype != media_type.subtype:
+            return self._NOT_MATCHING
+        else:
+            sub_matches = 1
+"""
+M('c11-w5-type-candidate-wildcard-dropped', 'C11', 'R1', MT, _LADDER, """        if self.main_type not in ('*', media_type.main_type):
+            return self._NOT_MATCHING
+        if self.subtype not in ('*', media_type.subtype):
+            return self._NOT_MATCHING
+
+        # NOTE: Matches involving a wildcard are prioritized lower.
+        main_matches = 0 if self.main_type == '*' else 1
+        sub_matches = 0 if self.subtype == '*' else 1
+""")
+M('c11-w5-type-main-candidate-wildcard-dropped', 'C11', 'R1', MT,
+  "        if self.main_type == '*' or media_type.main_type == '*':\n", "        if self.main_type == '*':\n")
+M('c11-w5-type-candidate-wildcard-scores-exact', 'C11', 'R1', MT, _LADDER, """        if self.main_type not in ('*', media_type.main_type) and media_type.main_type != '*':
+            return self._NOT_MATCHING
+        if self.subtype not in ('*', media_type.subtype) and media_type.subtype != '*':
+            return self._NOT_MATCHING
+
+        main_matches = 0 if self.main_type == '*' else 1
+        sub_matches = 0 if self.subtype == '*' else 1
+""")
+M('c11-w5-type-late-subtype-check-ignores-candidate-wildcard', 'C11', 'R1', MT,
+  "        return (main_matches, sub_matches, exact_match, len(matching), self.quality)\n",
+  "        if self.subtype != media_type.subtype and self.subtype != '*':\n            return self._NOT_MATCHING\n"
+  "        return (main_matches, sub_matches, exact_match, len(matching), self.quality)\n")
+# negative controls verified by hand with --root (must stay silent): `'*' not in (self.X, media_type.X) and self.X !=
+# media_type.X` early returns + `0 if '*' in (...) else 1`; equal-and-concrete tested first; the subtype block first; the
+# components computed first and the mismatch tested as `if main_matches and self.main_type != media_type.main_type`; the values
+# 1/2 instead of 0/1; the whole ladder moved behind the parameter loop.  Unknown idiom (exit 2): startswith() on a type token.
+
 # ----------------------------------------------------------------------- R2
 M('c11-float-valueerror-unwrapped', 'C11', 'R2', MT,
   "except (TypeError, ValueError) as ex:", "except TypeError as ex:")
@@ -385,6 +430,32 @@ M('c11-setitem-lowercases-key', 'C11', 'R9', HD,
 # the resolver AND `super().__setitem__(key.lower(), value)`); a lower-cased copy used only in the 415 description.
 # Unknown idiom (exit 2): `media_type = media_type.strip()`, keys folded only inside the best-match call.
 
+# the same fold applied to PIECES of the requested type (seeded s5-c11-1: "type/subtype are case-insensitive, parameters are not")
+M('c11-w5-resolver-lowercases-type-part', 'C11', 'R9', HD, _DEFAULTED, _DEFAULTED + """
+            if not media_type.islower():
+                full_type, semicolon, params = media_type.partition(';')
+                media_type = full_type.lower() + semicolon + params
+""", also=('C12',))
+M('c11-w5-resolver-lowercases-type-part-fstring', 'C11', 'R9', HD, _DEFAULTED, _DEFAULTED + """
+            full_type, semicolon, params = media_type.partition(';')
+            media_type = f'{full_type.lower()}{semicolon}{params}'
+""", also=('C12',))
+M('c11-w5-resolver-rejoins-lowercased-parts', 'C11', 'R9', HD, _DEFAULTED, _DEFAULTED + """
+            media_type = '/'.join(part.lower() for part in media_type.split('/'))
+""", also=('C12',))
+M('c11-w5-resolver-casefolds-prefix-slice', 'C11', 'R9', HD, _DEFAULTED, _DEFAULTED + """
+            cut = media_type.find(';')
+            if cut >= 0:
+                media_type = media_type[:cut].casefold() + media_type[cut:]
+""", also=('C12',))
+M('c11-w5-resolver-negotiates-lowercased-local', 'C11', 'R9', HD,
+  "                matched_type = _best_match(media_type, tuple(self.data.keys()))",
+  "                wanted = media_type.lower()\n                matched_type = _best_match(wanted, tuple(self.data.keys()))", also=('C12',))
+# negative controls verified by hand with --root (must stay silent): the partition/lower/re-assemble edit in the resolver AND
+# the same on `key` in __setitem__; `.lower()` only inside the 415 description; a lower-cased local used only in a test.
+# Unknown idiom (exit 2): `media_type = media_type.partition(';')[0]`, `media_type, _, _ = media_type.partition(';')`,
+# `media_type = _normalize(media_type)`.
+
 # ----------------------------------------------------------------------- R5
 M('c11-client-accepts-true-on-error', 'C11', 'R5', RQ,
   """        except ValueError:
@@ -411,6 +482,34 @@ M('c11-client-accepts-unprotected', 'C11', 'R5', RQ,
             return False
 """, """        return mediatypes.quality(media_type, accept) != 0.0
 """, also=('C09',))
+
+# ----------------------------------------------------------------------- R10
+# shortcuts around the negotiation (seeded s5-c11-2): "the header CONTAINS */*" is not "the header IS */*" -
+# 'text/csv;q=0, */*' and '*/*;q=0' refuse what the fast path accepts
+_FAST = """        if (accept == media_type) or (accept == '*/*'):
+            return True
+"""
+_QUALITY = "mediatypes.quality(media_type, accept) != 0.0"
+M('c11-w5-accepts-catchall-substring', 'C11', 'R10', RQ, _FAST, _FAST + "\n        if '*/*' in accept:\n            return True\n")
+M('c11-w5-accepts-catchall-suffix', 'C11', 'R10', RQ, _FAST, _FAST + "\n        if accept.endswith('*/*'):\n            return True\n")
+M('c11-w5-accepts-substring-in-fast-path', 'C11', 'R10', RQ,
+  "if (accept == media_type) or (accept == '*/*'):", "if (accept == media_type) or ('*/*' in accept):")
+M('c11-w5-accepts-substring-or-negotiation', 'C11', 'R10', RQ, "return " + _QUALITY, "return '*/*' in accept or " + _QUALITY)
+M('c11-w5-accepts-range-member-of-split', 'C11', 'R10', RQ, _FAST,
+  _FAST + "\n        for media_range in accept.split(','):\n            if media_range.strip() == '*/*':\n                return True\n")
+M('c11-w5-accepts-negative-substring', 'C11', 'R10', RQ, _FAST,
+  _FAST + "\n        if media_type not in accept and '*' not in accept:\n            return False\n")
+M('c11-w5-prefers-substring-shortcut', 'C11', 'R10', RQ,
+  "        try:\n            # NOTE(kgriffs): best_match will return '' if no match is found\n",
+  "        for candidate in media_types:\n            if candidate in self.accept:\n                return candidate\n\n"
+  "        try:\n            # NOTE(kgriffs): best_match will return '' if no match is found\n")
+M('c11-w5-accepts-quality-args-swapped', 'C11', 'R10', RQ, _QUALITY, "mediatypes.quality(accept, media_type) != 0.0")
+M('c11-w5-accepts-quality-nonstrict', 'C11', 'R10', RQ, _QUALITY, "mediatypes.quality(media_type, accept) >= 0.0")
+# negative controls verified by hand with --root (must stay silent): `if accept in (media_type, '*/*')`; the fast path removed;
+# `return accept == media_type or accept == '*/*' or quality(...) > 0.0` inside the try; an `accepted` local assigned in the
+# branches and returned once; `bool(quality(media_type, header))` with `header = accept`; a module constant for '*/*'; the
+# guard inverted (`if accept != media_type and accept != '*/*': <negotiate>` / `return True`).  Unknown idiom (exit 2):
+# `accept.strip() == '*/*'` (an equality of a rewritten header).
 
 M('c11-cache-old-stdlib-parser', 'C11', 'R6', 'falcon/util/mediatypes.py',
   "def _parse_header_old_stdlib(line: str)", "@functools.lru_cache()\ndef _parse_header_old_stdlib(line: str)")
